@@ -24,6 +24,7 @@ type Config struct {
 	WaivePanics   []string
 	QueryTimeout  int
 	AllowLeak     bool
+	CrossCheck    bool   // keep the transcript of assertion queries for re-checking on other solvers
 	UnwindLabel   string // when set, exhausting the loop/instruction budget is a violation with this label (non-termination)
 	IntMode       bool   // integer-with-wrap solver encoding (constant multipliers/divisors only)
 	Params        map[string]int
